@@ -35,7 +35,8 @@ OUTSIDE = ['histories longer than the bound', 'histories whose runs use worker t
 HIST = ['op_ok', 'op_raises', 'op_interrupt_in_body', 'op_interrupt_between', 'op_discarded', 'op_capture_fault',
         'op_sampled_out', 'op_forced', 'op_forced_then_discarded', 'idle_force', 'idle_discard',
         'replay_ok', 'replay_missing_id', 'replay_missing_key_after_output', 'replay_function_raises',
-        'replay_key_creation_error', 'replay_operation_raises', 'replay_interrupt_in_body', 'op_output_interrupt_in_body']
+        'replay_key_creation_error', 'replay_operation_raises', 'replay_interrupt_in_body', 'op_output_interrupt_in_body',
+        'op_output_then_discard', 'op_output_then_capture_fault']
 
 _o = sc.op_of
 P0 = [_o('A', 1), _o('O', 1)]
@@ -90,6 +91,10 @@ def _history_step(kind, tr, base_id, vals, den):
         _run_op(tr, vals, P0, term_at=1, term_kind=2, term_in_body=False)
     elif kind == 'op_discarded':
         _run_op(tr, vals, P0, faults=[('discard_op', 1)])
+    elif kind == 'op_output_then_discard':
+        _run_op(tr, vals, P_OUT_FIRST, faults=[('discard_op', 1)])
+    elif kind == 'op_output_then_capture_fault':
+        _run_op(tr, vals, P_OUT_FIRST, faults=[('key_arg', 1)])
     elif kind == 'op_capture_fault':
         _run_op(tr, vals, P0, faults=[('key_arg', 0)])
     elif kind == 'op_sampled_out':
